@@ -96,6 +96,15 @@ CHECKS = {
         "slot is tolerated (documented half-to-even rounding); MovingWindow is not sent samples older than its window.",
         "DESIGN.md section 3 C09",
     ),
+    "C10": (
+        "Hypothesis PBT over fault placements x control schedules on a virtual clock: probe actor driven by a generated outcome script, trace judged by a reference lifecycle model and invariants",
+        "The failure is placed at every await point of a small run body (including inside the cancellation handler), restart limit "
+        "and delay vary, and start/stop/cancel/wait/extra-task/advance operations land before, inside and after runs and restart "
+        "delays; a lifecycle model written from the statement predicts every _run invocation time exactly (virtual time). Also "
+        "plain BackgroundServices and run(*actors). Exploration level.",
+        "Cases with start() during an in-progress cancellation are not judged beyond that point; bounded liveness (60 s virtual horizon).",
+        "DESIGN.md section 3 C10",
+    ),
     "C12": (
         "Hypothesis PBT over generated component graphs with ground-truth physics: every generated formula engine is run for real and compared with the constructed totals",
         "Random valid trees (repository validation decides validity) with device powers on separate decimal scales; each of the 7 "
